@@ -12,7 +12,7 @@
    wf_modes / wf_index are boolean well-formedness conditions on repository
    CONTENT: an entry with a file mode, and an index entry, name a blob. *)
 From Coq Require Import List NArith ZArith Bool String.
-From GoGit Require Import Base.Out Gen.C22 Model.Gc Spec.Reach Proofs.C22.
+From GoGit Require Import Base.Out Gen.C22 Model.Gc Spec.Reach Proofs.C22 Proofs.C22Fuel.
 Import ListNotations.
 Local Open Scope N_scope.
 
@@ -42,6 +42,13 @@ Theorem C22_repack_keeps_live : forall fuel r lim r',
   forall h, live r h -> has r h = true -> has r' h = true /\ get r' h = get r h.
 Proof. exact repack_keeps_live. Qed.
 Print Assumptions C22_repack_keeps_live.
+
+(* The fuel the model gives the walker (one unit per object id it can ever
+   meet, plus one) always suffices: exhaustion is never reported, for every
+   repository content, well-formed or not. *)
+Theorem C22_walk_fuel_sufficient : forall r, walk_all (gc_fuel r) r <> Err EFuel.
+Proof. exact walk_all_fuel. Qed.
+Print Assumptions C22_walk_fuel_sufficient.
 
 (* ---- non-vacuity ---- *)
 
